@@ -880,3 +880,51 @@ Proof.
   destruct raw as [|a [|b [|c [|d r]]]]; try (unfold lenN in H1; cbn in H1; lia).
   unfold rad_declared. cbn [nth]. cbv in Hl. apply Ok_inj in Hl. subst l. reflexivity.
 Qed.
+
+(* ---------------- sequences of frames ---------------- *)
+Lemma disp_run_total next : forall frames cfg, Forall (fun o => safe o) (disp_run next cfg frames).
+Proof.
+  induction frames as [|[proto pl] r IH]; intros cfg; cbn [disp_run]; constructor.
+  - apply handle_frame_total.
+  - apply IH.
+Qed.
+Lemma disp_run_length next : forall frames cfg, length (disp_run next cfg frames) = length frames.
+Proof. induction frames as [|[proto pl] r IH]; intros cfg; cbn [disp_run length]; [reflexivity|]. rewrite IH. reflexivity. Qed.
+
+(* ---------------- lock discipline ---------------- *)
+Lemma path_ok_acquire : forall a held l b, path_ok held (a ++ Acq l :: b) = true -> holds l (held_after held a) = false.
+Proof.
+  induction a as [|op r IH]; intros held l b H.
+  - cbn [app path_ok held_after] in *. apply andb_prop in H. destruct H as [H _]. apply andb_prop in H. destruct H as [H _].
+    destruct (holds l held); [discriminate H|reflexivity].
+  - cbn [app] in H. destruct op as [l0|l0| |]; cbn [path_ok held_after] in *.
+    + apply andb_prop in H. destruct H as [_ H]. eapply IH; exact H.
+    + apply andb_prop in H. destruct H as [_ H]. eapply IH; exact H.
+    + eapply IH; exact H.
+    + destruct held; [eapply IH; exact H|discriminate H].
+Qed.
+Lemma path_ok_blocking : forall a held b, path_ok held (a ++ Blocking :: b) = true -> held_after held a = [].
+Proof.
+  induction a as [|op r IH]; intros held b H.
+  - cbn [app path_ok held_after] in *. destruct held; [reflexivity|discriminate H].
+  - cbn [app] in H. destruct op as [l0|l0| |]; cbn [path_ok held_after] in *.
+    + apply andb_prop in H. destruct H as [_ H]. eapply IH; exact H.
+    + apply andb_prop in H. destruct H as [_ H]. eapply IH; exact H.
+    + eapply IH; exact H.
+    + destruct held; [eapply IH; exact H|discriminate H].
+Qed.
+Lemma path_ok_ordered : forall a held l b, path_ok held (a ++ Acq l :: b) = true ->
+  forallb (fun h => lrank h <? lrank l) (held_after held a) = true.
+Proof.
+  induction a as [|op r IH]; intros held l b H.
+  - cbn [app path_ok held_after] in *. apply andb_prop in H. destruct H as [H _]. apply andb_prop in H. destruct H as [_ H]. exact H.
+  - cbn [app] in H. destruct op as [l0|l0| |]; cbn [path_ok held_after] in *.
+    + apply andb_prop in H. destruct H as [_ H]. eapply IH; exact H.
+    + apply andb_prop in H. destruct H as [_ H]. eapply IH; exact H.
+    + eapply IH; exact H.
+    + destruct held; [eapply IH; exact H|discriminate H].
+Qed.
+Lemma head_paths_ok : forallb (fun np => path_ok [] (snd np) && match held_after [] (snd np) with [] => true | _ => false end) head_paths = true.
+Proof. vm_compute. reflexivity. Qed.
+Lemma seeded_paths_refuted : path_ok [] path_q2 = false /\ path_ok [] path_m2 = false.
+Proof. split; vm_compute; reflexivity. Qed.
